@@ -510,6 +510,15 @@ class Ledger:
         now = info["vnow"]
         if self.term_sent:
             return
+        hw = getattr(self, "hup_wake", None)
+        self.hup_wake = None
+        if hw and hw["inc"] == self.w.incarnation and self.w.qcount == hw["q"] + 1 and now < hw["abs"]:
+            # the select() interrupted by HUP was due to return at hw["abs"]; nothing became due in between (now < abs), no report, no
+            # injection, so the daemon's earliest due event is unchanged: "it never sleeps past its earliest due event"
+            self.res.classes.add("hup_during_sleep")
+            if now + tmo > hw["abs"]:
+                res.v("C16", "after a HUP that interrupted its sleep the daemon plans to wake at %d, %d s later than before the signal (%d); now %d, timeout %d"
+                      % (now + tmo, now + tmo - hw["abs"], hw["abs"], now, tmo))
         # never sleep past the earliest due retry of a message that is not in a job and has a free slot
         for (n, c), pl in self.passes.items():
             if n not in snap or not pl:
@@ -576,6 +585,7 @@ def run_scenario(tree, wpath, sc, maxq=None, world=None):
     elif mode["kind"] == "fault":
         fault = "%s:%s:%d:%s" % (mode["key"], mode["cls"], mode["k"], mode["err"])
     tape = list(sc.get("tape", []))
+    plan = list(sc.get("plan", []))
     acts = set(sc.get("actions", ["answer", "inject", "advance"]))
     pending = list(enumerate(sc["messages"]))
     texts = [L(t) for t in sc.get("texts", ["ok"])] or [b"ok"]
@@ -711,7 +721,18 @@ def run_scenario(tree, wpath, sc, maxq=None, world=None):
                     enabled.append(("spawndie",))
                 if "garbage" in acts and used["garbage"] < 3:
                     enabled.append(("garbage",))
-            if tape and not finishing:
+            act = None
+            if plan and not finishing:
+                # symbolic step of a fixed history ("inject", "answer", "advance_part:99", "hup", ...): taken as soon as it is enabled;
+                # until then the drain policy below moves the world on
+                name, _, parg = plan[0].partition(":")
+                cand = [e for e in enabled if e[0] == name]
+                if cand:
+                    plan.pop(0)
+                    act, arg = cand[0], int(parg or 0)
+            if act is not None:
+                pass
+            elif tape and not finishing and not plan:
                 act = enabled[tape.pop(0) % len(enabled)]
                 arg = tape.pop(0) if tape else 0
             else:
@@ -762,6 +783,9 @@ def run_scenario(tree, wpath, sc, maxq=None, world=None):
                 used["hup"] += 1
                 apply_hup(sc, w)
                 res.classes.add("hup")
+                # HUP only makes the daemon re-read two control files: the instant at which it planned to wake must not move later
+                if 0 < info["req_timeout"] < 86400:
+                    led.hup_wake = {"abs": info["vnow"] + info["timeout"], "q": w.qcount, "inc": w.incarnation}
                 w.signal(signal.SIGHUP)
             elif act[0] == "alrm":
                 used["alrm"] += 1
